@@ -612,7 +612,7 @@ func init() {
 func TestC01_Replicas(t *testing.T) {
 	st := ev.New("C01", "TestC01_Replicas", "block history executed on replica A (builds the txs), an independently constructed replica B, a perturbed replica (CheckTx/ReCheckTx/Simulate of the same txs, garbage CheckTx, query battery, non-zero-height export, other apps constructed first) and a replica in a separate OS process with another GOMAXPROCS; non-trivial = >= 1 successful EVM tx touching >= 2 accounts/slots or >= 3 distinct successful tx kinds")
 	runCorpus(t, st)
-	runRapid(t, st, 48, 1500, func(rt *rapid.T) {
+	runRapid(t, st, 48, 4000, func(rt *rapid.T) {
 		if msg := runC01(st, genHistory(rt, 3, 10, hKinds)); msg != "" {
 			rt.Fatalf("%s", msg)
 		}
@@ -622,7 +622,7 @@ func TestC01_Replicas(t *testing.T) {
 func TestC20_Restart(t *testing.T) {
 	st := ev.New("C20", "TestC20_Restart", "block history plus 1-3 block boundaries at which the database is copied and a new application instance is opened on it (optionally restarted once more a block later); Info, a battery of ~100 queries and all following block traces must equal the uninterrupted node; non-trivial = restart right after a block with a token-pair registration (liquidation), proposal or contract creation")
 	runCorpus(t, st)
-	runRapid(t, st, 60, 2000, func(rt *rapid.T) {
+	runRapid(t, st, 60, 4000, func(rt *rapid.T) {
 		if msg := runC20(st, genC20(rt)); msg != "" {
 			rt.Fatalf("%s", msg)
 		}
@@ -632,7 +632,7 @@ func TestC20_Restart(t *testing.T) {
 func TestC19_ExportImport(t *testing.T) {
 	st := ev.New("C19", "TestC19_ExportImport", "block history, then export -> InitChain on a fresh app -> export; genesis documents compared module by module (ibc localhost height normalised) and a battery of ~100 queries compared between the two apps; non-trivial = state with >= 3 of: contract with storage, liquid denom/token pair, vesting account, DAO holder, contract call, minting in progress")
 	runCorpus(t, st)
-	runRapid(t, st, 60, 2000, func(rt *rapid.T) {
+	runRapid(t, st, 60, 4000, func(rt *rapid.T) {
 		if msg := runC19(st, genHistory(rt, 2, 9, hKinds)); msg != "" {
 			rt.Fatalf("%s", msg)
 		}
